@@ -182,6 +182,12 @@ def run(tier, seed):
     viol += [v for v in tr_viol if v["property"] == "C17"]
     states += tr_cov["states"]
     trans += tr_cov["transitions"]
+    # ---- (5) data routing: which instances feed which phase of a run (Routing.tla / RoutingTrace.tla)
+    from . import c17b_routing
+    rt_viol, rt_cov = c17b_routing.violations(tier, seed)
+    viol += [v for v in rt_viol if v["property"] == "C17"]
+    states += rt_cov["states"]
+    trans += rt_cov["transitions"]
     n_new, n_known = verdict.report("C17", viol)
     from . import unbounded
     unb = unbounded.for_property("C17", tier)      # Apalache: the loader pass for ALL n, batch sizes, evaluation batch sizes
@@ -189,6 +195,7 @@ def run(tier, seed):
     cov = {"states": states + st, "transitions": trans, "traces_validated_against_impl": nrep + len(recs) + tr_cov["tlc_validated_traces"],
            "samples": samples, "exhaustive": True, "replayed_model_states": nrep, "recorded_passes": len(recs),
            "tlc_action_coverage": cov_actions, "known_finding_witnesses": n_known, "unbounded": unb,
+           "data_routing": {k: v for k, v in rt_cov.items() if k not in ("samples",)},
            "training_run": {k: tr_cov[k] for k in ("replayed_runs", "replayed_actions", "tlc_validated_traces", "fit_runs", "models")},
            "explanation": "Loader.tla model-checked for all n<=%d x batch sizes x evaluation batch sizes x loader orders; unshuffled "
                           "behaviours replayed through the real dataset classes wrapped by RolloutBaseline; recorded passes of "
